@@ -7,6 +7,8 @@ import I2N.Model.GraphResolve
     node <id> <worker> <flat01><sharedRoot01><cloneSource01> <objectRoot> <paramNets> <paramVms>
     obj <key> <suffix> <oid> <get> <getState> <setState>          (object of the last node)
     regs <r1> <r2> <r3> <r4>                                      (registers of the last node)
+    cls <class>                                                   (bridging class of the last node)
+    check-bridges    -> true | false
     setup <child> <parent> <obj> | cleanup <child> <parent> <obj> | bridge <a> <b> | clone <src> <clone>
     check            -> ok | fail <clause> <witness…>
     wf               -> true | false
@@ -22,6 +24,7 @@ import I2N.Model.GraphResolve
     s-worker <name> [<vm>:<only|no>:<names> …]
     r-nodes -> sorted `key;root01;vm:kind:get:getState:setState,…` joined by blanks
     r-edges -> sorted `childkey>vm:kind>parentkey` joined by blanks
+    r-lazy-nodes <worker>=<test>,… / r-lazy-edges … -> the same after only these flat nodes were expanded
     with key = <test and clone labels, dotted>|<vm=variant,…>|<worker>
 -/
 open I2N.Graph
@@ -106,6 +109,12 @@ def stepSuite (s : St) (toks : List String) : Option (St × String) :=
     some ({ s with workers := s.workers ++ [w] }, "ok")
   | ["r-nodes"] => some (s, " ".intercalate (sortStr (s.resolved.nodes.map nodeStr)))
   | ["r-edges"] => some (s, " ".intercalate (sortStr (s.resolved.edges.map edgeStr)))
+  | ["r-lazy-nodes", steps] =>
+    let st := (unl steps).filterMap (fun x => match x.splitOn "=" with | [w, t] => some (w, dots t) | _ => none)
+    some (s, " ".intercalate (sortStr ((resolveLazy s.suite s.user s.workers st).nodes.map nodeStr)))
+  | ["r-lazy-edges", steps] =>
+    let st := (unl steps).filterMap (fun x => match x.splitOn "=" with | [w, t] => some (w, dots t) | _ => none)
+    some (s, " ".intercalate (sortStr ((resolveLazy s.suite s.user s.workers st).edges.map edgeStr)))
   | _ => none
 
 def step (s : St) (line : String) : St × String :=
@@ -126,6 +135,13 @@ def step (s : St) (line : String) : St × String :=
       let n' : Node := { n with objs := n.objs ++ [o] }
       ({ s with nodes := s.nodes.pop.push n' }, "ok")
     | none => (s, "bad-op")
+  | ["cls", c] =>
+    match s.nodes.back? with
+    | some n =>
+      let n' : Node := { n with cls := c }
+      ({ s with nodes := s.nodes.pop.push n' }, "ok")
+    | none => (s, "bad-op")
+  | ["check-bridges"] => (s, toString s.graph.checkBridges)
   | ["regs", a, b, c, d] =>
     match a.toNat?, b.toNat?, c.toNat?, d.toNat? with
     | some a, some b, some c, some d => ({ s with regs := s.regs.pop.push [a, b, c, d] }, "ok")
